@@ -5,6 +5,47 @@ import sys
 from symx.runner import run_check
 from checks.matchfam import MatchAPI, MatchLong, Kernel, KernelAffine, SymbolicAlpha
 
+from symx.runner import Family, arr, increasing
+from checks.matchfam import cx, gap_grids
+from fractions import Fraction
+from symx.core import Sym
+
+
+class ViaWeaver(Family):
+    name = "weaver-integral-match"
+    doc = "Weaver.integral_match on a recreated series: fixed points (every n-th sample) unchanged, idempotent"
+
+    def configs(self, tier):
+        out = []
+        for m in ((3, 4) if tier == "quick" else (3, 4, 5, 6)):
+            for n in (2, 3, 4):
+                for strategy in ("PiecewiseConstantRFA", "LinearFixedRFA"):
+                    for trule in ("trapezoid", "rectangle"):
+                        for al in ("1", "2"):
+                            if tier == "quick" and (m + n + len(strategy) + len(trule) + int(al)) % 2:
+                                continue
+                            out.append({"m": m, "n": n, "strategy": strategy, "trule": trule, "alpha": al,
+                                        "grid": [str(g) for g in gap_grids(m, tier, limit=1)[2]]})
+        return out
+
+    def run(self, ctx, inst, m, n, strategy, trule, alpha, grid):
+        from traffic_weaver import Weaver, rfa
+        gx = [Fraction(g) for g in grid]
+        ys = ctx.reals("y", m)
+        w = Weaver(cx(ctx, gx), arr(ctx, ys)).recreate_from_average(n, rfa_class=getattr(rfa, strategy))
+        before = list(w.get()[1])
+        al = ctx.const(Fraction(alpha)) if ctx.symbolic else float(Fraction(alpha))
+        w.integral_match(target_function_integral_method=trule, alpha=al)
+        after = list(w.get()[1])
+        ctx.claim("length-unchanged", len(after) == len(before) == (m - 1) * n + 1)
+        for k in range(m):
+            ctx.claim("fixed-point-unchanged", ctx.same(after[k * n], before[k * n]), {"k": k})
+        w.integral_match(target_function_integral_method=trule, alpha=al)
+        again = list(w.get()[1])
+        for i in range(len(after)):
+            ctx.claim("idempotent", ctx.eq(again[i], after[i]), {"i": i})
+
+
 META = {
     "explanation": "Same symbolic runs of the real matching code as C01, with the claims of C03 evaluated on every path: "
                    "samples at or outside the first/last fixed point and every fixed point are the identical term as the "
@@ -26,5 +67,5 @@ if __name__ == "__main__":
     ap = argparse.ArgumentParser()
     ap.add_argument("--tier", default="quick")
     a = ap.parse_args()
-    sys.exit(run_check("C03", "matching profile", [MatchAPI("C03"), MatchLong("C03"), Kernel("C03"), KernelAffine("C03"),
+    sys.exit(run_check("C03", "matching profile", [MatchAPI("C03"), MatchLong("C03"), ViaWeaver(), Kernel("C03"), KernelAffine("C03"),
                                                    SymbolicAlpha("C03")], a.tier, META))
